@@ -128,6 +128,8 @@ def run(ck):
                       "b~TruncNormal[0,inf) times the mean rms; Cash -(m - d ln m); pseudo-Huber -delta^2(sqrt(1+(r/delta)^2)-1), delta=3; Student-t(5) located at the model with "
                       "scale sqrt(3/2)*rms (symmetry, standardised form, exponent -3); three mixtures ln((1-f)N+fN_outlier), outlier 5x wider, f=b/20 in [0,1/4].")
     doc_bad = oracle_violations(cases, res)
+    ck.oblige("oracle:per-pixel log-likelihood of the real losses == the documented closed forms (float64 recomputation)", "correspondence",
+              not doc_bad, json.dumps({k: v for k, v in doc_bad[0].items() if k != "case"}, default=str)[:300] if doc_bad else "")
     if ck.broken():
         if doc_bad:
             b = doc_bad[0]
